@@ -518,6 +518,23 @@ def g3(rep, src):
             rep.violation("G3", name, "the empty case is not reported as Error::unreachable_property", f.where())
 
 
+def _structural_eq(src):
+    """RelationWithAttributes compares structurally: PartialEq, Eq and Hash all come from #[derive] and none is written by hand."""
+    st = [it for (_f, _m, it) in src.find_items("struct", name="RelationWithAttributes", file="rewriting/relation_with_attributes.rs")]
+    if len(st) != 1:
+        return False
+    derived = set()
+    for a in st[0].get("attrs", []):
+        if a.replace(" ", "").startswith("derive("):
+            derived |= set(x.strip().split("::")[-1] for x in a[a.index("(") + 1 : a.rindex(")")].split(","))
+    if not {"PartialEq", "Eq", "Hash"} <= derived:
+        return False
+    for (_f, _m, im) in src.impls:
+        if (im.get("trait") or "").split("::")[-1].split("<")[0] in ("PartialEq", "Hash") and (im.get("self_ty") or "").startswith("RelationWithAttributes"):
+            return False
+    return True
+
+
 def g5(rep, src):
     rep.rule(
         "G5",
@@ -529,6 +546,10 @@ def g5(rep, src):
         f = src.one_fn(name=nm, file=RR)
         ms = [m["m"] for m in find(f.body, "mcall")]
         bad = [m for m in ms if m not in ("accept", "into_iter", "iter", "map", "collect", "cloned", "clone", "deref", "to_vec")]
+        if "unique" in bad and all(not m["args"] for m in find(f.body, "mcall") if m["m"] == "unique") and _structural_eq(src):
+            # `.unique()` with the derived (structural) Eq/Hash of the node type only removes exact duplicates of a candidate:
+            # the arg-max over the remaining ones is unchanged.  With a hand-written (coarser) equality it merges distinct derivations.
+            bad = [m for m in bad if m != "unique"]
         rep.instance("G5", nm, {"fn": nm, "methods": ms})
         if "accept" not in ms:
             rep.violation("G5", nm, "%s does not run its visitor (no accept call)" % nm, f.where())
